@@ -50,3 +50,94 @@ Section RerunCrash.
     - apply (rerun_phase2 w roots D flt HD HM _ st adopt H2).
   Qed.
 End RerunCrash.
+
+(* ---------- rollback: re-running after an interruption ----------
+   restore_managed / restore_manifests / delete_unlisted overwrite a fixed set of paths with fixed
+   values, whatever the disk holds: the result at a path is either that fixed value or the input.
+   Hence from any state in which every path holds its old or its final content, the same rollback
+   produces the final content everywhere. *)
+Definition apply_writes (f : fs) (l : list (path * option fobj)) : fs :=
+  fold_left (fun g e => upd g (fst e) (snd e)) l f.
+
+Lemma aw_cases l : forall p,
+  (forall g, apply_writes g l p = g p) \/ (exists v, forall g, apply_writes g l p = v).
+Proof.
+  induction l as [|e l IH]; intros p; [left; intros g; reflexivity|].
+  destruct (IH p) as [Hk|[v Hv]].
+  - destruct (path_eqb (fst e) p) eqn:E.
+    + right. exists (snd e). intros g. unfold apply_writes. simpl. fold (apply_writes (upd g (fst e) (snd e)) l).
+      rewrite Hk. apply path_eqb_eq in E. rewrite E. apply upd_same.
+    + left. intros g. unfold apply_writes. simpl. fold (apply_writes (upd g (fst e) (snd e)) l).
+      rewrite Hk. apply upd_other. apply path_eqb_neq in E. congruence.
+  - right. exists v. intros g. unfold apply_writes. simpl. fold (apply_writes (upd g (fst e) (snd e)) l). apply Hv.
+Qed.
+
+Lemma aw_app f a b : apply_writes (apply_writes f a) b = apply_writes f (a ++ b).
+Proof. unfold apply_writes. rewrite fold_left_app. reflexivity. Qed.
+
+Lemma restore_managed_aw l : forall f,
+  restore_managed f l = apply_writes f (map (fun e : str * path * N => (snd (fst e), Some (FBytes (snd e)))) l).
+Proof. unfold restore_managed, apply_writes. induction l as [|e l IH]; intros f; [reflexivity|]. simpl. apply IH. Qed.
+
+Definition manifest_writes (l : list achange) : list (path * option fobj) :=
+  flat_map (fun c => if is_manifest_path (a_path c) && is_cu (a_op c)
+                     then match a_after c with Some o => [(a_path c, Some o)] | None => [] end
+                     else []) l.
+Lemma restore_manifests_aw l : forall f, restore_manifests f l = apply_writes f (manifest_writes l).
+Proof.
+  unfold restore_manifests, apply_writes, manifest_writes. induction l as [|c l IH]; intros f; [reflexivity|].
+  cbn [fold_left flat_map]. rewrite fold_left_app, IH.
+  destruct (is_manifest_path (a_path c) && is_cu (a_op c)); [|reflexivity].
+  destruct (a_after c); reflexivity.
+Qed.
+
+Definition delete_writes (cur tgt : list (str * path * N)) : list (path * option fobj) :=
+  flat_map (fun e : str * path * N => if mem_tpc (fst (fst e), snd (fst e)) tgt then [] else [(snd (fst e), @None fobj)]) cur.
+Lemma delete_unlisted_aw cur tgt : forall f, delete_unlisted f cur tgt = apply_writes f (delete_writes cur tgt).
+Proof.
+  unfold delete_unlisted, apply_writes, delete_writes. induction cur as [|e cur IH]; intros f; [reflexivity|].
+  cbn [fold_left flat_map]. rewrite fold_left_app, IH.
+  destruct (mem_tpc (fst (fst e), snd (fst e)) tgt); reflexivity.
+Qed.
+
+Definition rb_files_of (f : fs) (tgt cur : snapshot) : fs :=
+  delete_unlisted (restore_manifests (restore_managed f (sn_managed tgt)) (sn_changes tgt)) (sn_managed cur) (sn_managed tgt).
+
+Lemma rb_files_of_rerun f g tgt cur :
+  (forall p, g p = f p \/ g p = rb_files_of f tgt cur p) -> forall p, rb_files_of g tgt cur p = rb_files_of f tgt cur p.
+Proof.
+  intros H p.
+  assert (E : forall x, rb_files_of x tgt cur =
+              apply_writes x (map (fun e : str * path * N => (snd (fst e), Some (FBytes (snd e)))) (sn_managed tgt)
+                              ++ manifest_writes (sn_changes tgt) ++ delete_writes (sn_managed cur) (sn_managed tgt))).
+  { intros x. unfold rb_files_of. rewrite delete_unlisted_aw, restore_manifests_aw, restore_managed_aw, !aw_app, app_assoc. reflexivity. }
+  set (L := map (fun e : str * path * N => (snd (fst e), Some (FBytes (snd e)))) (sn_managed tgt)
+            ++ manifest_writes (sn_changes tgt) ++ delete_writes (sn_managed cur) (sn_managed tgt)) in E.
+  rewrite !E. destruct (aw_cases L p) as [Hk|[v Hv]].
+  - rewrite !Hk. destruct (H p) as [Hp|Hp]; [exact Hp|]. rewrite Hp, E, Hk. reflexivity.
+  - rewrite !Hv. reflexivity.
+Qed.
+
+Theorem rollback_rerun w id tgt cur h w' k :
+  nth_error (snaps w) id = Some tgt -> head_of (snaps w) = Some h -> nth_error (snaps w) h = Some cur ->
+  rollback w id = (RbOk, w') ->
+  NoDup (map (fun e : str * path * N => snd (fst e)) (sn_managed tgt)) ->
+  NoDup (map (fun e : str * path * N => snd (fst e)) (sn_managed cur)) ->
+  (forall e, In e (sn_managed tgt) -> is_manifest_path (snd (fst e)) = false) ->
+  (forall e, In e (sn_managed cur) -> is_manifest_path (snd (fst e)) = false) ->
+  (forall e e', In e (sn_managed cur) -> In e' (sn_managed tgt) -> snd (fst e) = snd (fst e') -> fst (fst e) = fst (fst e')) ->
+  NoDup (map a_path (filter (fun c => is_manifest_path (a_path c) && is_cu (a_op c)) (sn_changes tgt))) ->
+  let wc := Build_world (cfiles (run_prefix k (steps_of_rollback (files w) tgt cur) (init_state (files w)))) (snaps w) in
+  exists w2, rollback wc id = (RbOk, w2) /\ forall p, files w2 p = files w' p.
+Proof.
+  intros Ht Hh Hc Hrb H1 H2 H3 H4 H5 H6. cbv zeta.
+  pose proof (run_all_is_rollback w id w' tgt cur h Ht Hh Hc Hrb) as Hall.
+  assert (Hw' : forall p, files w' p = rb_files_of (files w) tgt cur p).
+  { intros p. unfold rollback in Hrb. rewrite Ht, Hh, Hc in Hrb.
+    destruct (sn_kind tgt); try discriminate; destruct (sn_state tgt); try discriminate; inversion Hrb; reflexivity. }
+  unfold rollback in *. cbn [snaps files]. rewrite Ht, Hh, Hc in *.
+  destruct (sn_kind tgt); try discriminate; destruct (sn_state tgt); try discriminate;
+    (eexists; split; [reflexivity|]; cbn [files]; intros p; rewrite Hw';
+     apply (rb_files_of_rerun (files w)); intros q;
+     destruct (rollback_old_or_new (files w) tgt cur k q H1 H2 H3 H4 H5 H6) as [E|E]; [left; exact E|right; rewrite E, Hall; apply Hw']).
+Qed.
